@@ -396,6 +396,8 @@ pub struct FxPlan {
     /// The server's date when it differs from the process's clock (a clock set ahead): the
     /// snapshot SimBoC serves is the one of this day. None = the process's today.
     pub server_today: Option<Date>,
+    /// Some(h): "today" comes from the simulated system clock + TZ (h hours west of UTC), not from the test override.
+    pub clock_tz: Option<i8>,
     pub fs_faults: FsFaultSpec,
     pub knobs: Knobs,
     pub hash_seed: u64,
@@ -492,6 +494,7 @@ pub fn run_fx_process(plan: FxPlan) -> FxObs {
     let mut env = ProcEnv::new(plan.hash_seed, plan.today);
     env.knobs = plan.knobs.clone();
     env.fs_faults = plan.fs_faults.to_faults();
+    env.clock_tz_hours_west = plan.clock_tz;
     let FxPlan { data, today, published_today, force, cache, mem_in, lookups, app_rows, app_files, app_console, app_legacy_date, app_date_fmt, net_faults, server_today, .. } = plan;
     let out: ProcOut<Inner> = run_process(&env, move || {
         use acb::fx::io::{CsvRatesCache, InMemoryRatesCache, RateLoader, RatesCache};
@@ -643,6 +646,7 @@ impl Reference {
             app_date_fmt: 0,
             net_faults: vec![],
             server_today: None,
+            clock_tz: None,
             fs_faults: FsFaultSpec::default(),
             knobs: Knobs::default(),
             hash_seed: 0x5EED,
